@@ -796,5 +796,38 @@ theorem c14_helpers_unsound_witness :
     (callHelperMemo ⟨[], [], []⟩ bad k.1 k.2).1 = .ok (.bool false) ∧ callHelper ⟨[], [], []⟩ k.1 k.2 = .ok (.bool true) := by
   decide
 
+/-! ## 7. First use of a pool -/
+
+/-- `c14_pool_state_exclusive` is about the code's `New`, which builds a VM of its own for every
+    caller.  A `New` that hands out a kept VM through an unsynchronised variable (load, then store:
+    `Model/C14.lean` §12) loses it: when the loads of two first callers both precede the stores, both
+    callers hold VM 0, and caller 0 — a stateless script that answers with its request — is answered
+    with caller 1's request, which no single resolver answers to caller 0's request after any
+    history whatever. -/
+theorem c14_pool_first_use_witness :
+    let f : Unit → Nat → Nat × Unit := fun st r => (r, st)
+    let req : Nat → Nat := fun c => c + 10
+    let s := frun f () req [.load 0, .load 1, .take 0, .take 1, .op (.beginEval 0), .op (.beginEval 1), .op (.finish 0)]
+    (s.s.base.phase 0).vm? = some 0 ∧ (s.s.base.phase 1).vm? = some 0 ∧
+      (s.s.base.phase 0).answer? = some (some 11) ∧ ∀ log, (11 : Nat) ∉ possibleAnswers f () log (req 0) := by
+  refine ⟨?_, ?_, ?_, ?_⟩
+  · simp [frun, fstep, sstep, pstep, FState.init, SState.init, PState.init, setPhase, setReg, setAt, Phase.vm?]
+  · simp [frun, fstep, sstep, pstep, FState.init, SState.init, PState.init, setPhase, setReg, setAt, Phase.vm?]
+  · simp [frun, fstep, sstep, pstep, FState.init, SState.init, PState.init, setPhase, setReg, setAt, Phase.answer?]
+  · intro log hm
+    obtain ⟨h, _, ha⟩ := (c14_pool_judge (fun (st : Unit) (r : Nat) => (r, st)) () log 10 11).mp hm
+    simp [answerAfter] at ha
+
+/-- the same two callers when each `New` runs undivided (load and store of one caller adjacent):
+    the second caller's load sees nil, it gets a VM of its own, and each is answered with its own
+    request. -/
+example :
+    let f : Unit → Nat → Nat × Unit := fun st r => (r, st)
+    let req : Nat → Nat := fun c => c + 10
+    let s := frun f () req [.load 0, .take 0, .load 1, .take 1, .op (.beginEval 0), .op (.beginEval 1), .op (.finish 0), .op (.finish 1)]
+    (s.s.base.phase 0).vm? = some 0 ∧ (s.s.base.phase 1).vm? = some 1 ∧
+      (s.s.base.phase 0).answer? = some (some 10) ∧ (s.s.base.phase 1).answer? = some (some 11) := by
+  simp [frun, fstep, sstep, pstep, FState.init, SState.init, PState.init, setPhase, setReg, setAt, Phase.vm?, Phase.answer?]
+
 end C14
 end FwdVerif
